@@ -3,7 +3,8 @@ from ..kengine import H
 
 ID = "C10"
 MODULE = "c10"
-ENGINE = "K"
+ENGINE = "KM"
+TECHNIQUE = "Kani/CBMC bounded model checking of the compiled encoder/decoder (headers for every u64 length, short payloads, read plans); long payloads (126..70 KiB, the 64 KiB chunk loop, truncation) by symbolic execution of the MIR of Frame::from_stream and From<Frame> for Vec<u8> -> z3 bit-vectors; counterexamples replayed natively against an RFC 6455 5.2 reference"
 
 META = {
     "functions_encoded": [
@@ -16,7 +17,7 @@ META = {
     "stubs": [],
     "assumes": ["opcode index < 6 when constructing a frame (the 6 defined opcodes)"],
     "outside_bounds": [
-        "payloads of 126..2^64 bytes: only their HEADERS are covered (enc_header over all u64 lengths with an empty payload vector; dec_std/dec_ext over all claimed lengths with truncated input)",
+        "engine K: payloads of 126..2^64 bytes only through their HEADERS (enc_header over all u64 lengths with an empty payload vector; dec_std/dec_ext over all claimed lengths with truncated input); engine M (`long_payloads`) decides complete frames of 125..300 and 65537 bytes (thorough: 65534..65537, 70 KiB, 128 KiB+1) with symbolic first byte/key/payload, and their truncations; lengths in between and above 128 KiB+1 are not covered",
         "read segmentations are concrete per harness (whole, byte-wise, single split point K): enumerated, not solver-quantified",
         "dec_c/dec_ext fix header byte 1 (and the extended length) to constants per harness; every other byte is symbolic",
         "real sockets, TLS streams (only the Read trait contract is exercised)",
@@ -94,3 +95,71 @@ def harnesses():
     for h in hs:
         h.module = MODULE
     return hs
+
+
+def run(tier, run_k):
+    import json, os, time
+    from ..common import WORK, REPLAY_DIR, log, write_evidence
+    from . import c10_big
+    k = run_k()
+    t0, rc, cov, assumptions, nviol = k["t0"], k["rc"], k["cov"], k["assumptions"], k["violations"]
+    from mirsym.dump import dump_mir
+    work = os.path.join(WORK, ID)
+    try:
+        mir, dt = dump_mir("humphrey-ws", work, features="verif")
+        d = c10_big.run_part(tier, work, mir)
+    except Exception as e:
+        log("UNDISCHARGED: long payloads — %s" % str(e)[:500])
+        d = {"results": [], "violations": [], "machinery": [], "undischarged": [{"job": "all", "why": str(e)[:300]}], "validation": {}}
+    for r in d["violations"][:1]:
+        path = os.path.join(REPLAY_DIR, "C10-frame.json")
+        os.makedirs(REPLAY_DIR, exist_ok=True)
+        with open(path, "w") as f:
+            json.dump({"property": ID, "engine": "M", "kind": "frame", "replay": r["replay"], "how": "./check C10 --replay " + path}, f, indent=1)
+        log("VIOLATION property=%s replay=%s" % (ID, path))
+        rp = r["replay"]
+        log("   %s" % rp["request"][:160])
+        log("   natively (dev / release): %s / %s" % (rp["native_dev"][:160], rp["native_release"][:160]))
+        log("   RFC 6455 5.2: %s   [failed: %s]" % (rp["expected"][:160], rp["failed"][:160]))
+        rc = 1
+        nviol += 1
+    for m in d["machinery"]:
+        log("MACHINERY-ERROR: long payloads — " + m[:600])
+        rc = rc or 2
+    for r in d["undischarged"][:6]:
+        log("UNDISCHARGED: long payloads %s — %s" % (r.get("job"), r.get("why")))
+    ok = [r for r in d["results"] if r["verdict"] == "unsat"]
+    log("   long payloads (engine M): %d/%d frame shapes discharged, %d paths, %d z3 checks, translator validation on %s frames" % (
+        len(ok), len(d["results"]), sum(r.get("paths", 0) for r in d["results"]), sum(r.get("n_checks", 0) for r in d["results"]), d["validation"].get("inputs")))
+    cov["evaluations"] += len(d["results"])
+    cov["distinct_nontrivial"] += len(ok)
+    cov["obligations"] = cov.get("obligations", 0) + len(d["results"])
+    cov["discharged"] = cov.get("discharged", 0) + len(ok)
+    cov["states"] = cov.get("states", 0) + sum(r.get("blocks", 0) for r in d["results"])
+    cov["transitions"] = cov.get("transitions", 0) + sum(r.get("n_checks", 0) for r in d["results"])
+    cov["traces_validated_against_impl"] = cov.get("traces_validated_against_impl", 0) + (d["validation"].get("inputs") or 0)
+    cov["solver_time_s"] = round(cov.get("solver_time_s", 0) + sum(r.get("solver_s", 0) for r in d["results"]), 2)
+    cov["long_payloads"] = {
+        "functions_encoded": ["humphrey-ws/src/frame.rs: Frame::{from_stream, from_stream_inner} and the unmask closure, <Opcode as TryFrom<u8>>::try_from, From<Frame> for Vec<u8> and its mask closure (MIR of the current tree, bit-vector mode)"],
+        "shapes": [{k2: r.get(k2) for k2 in ("job", "verdict", "paths", "n_checks", "wall_s", "why")} for r in d["results"]],
+        "shape_legend": "dec: (payload length, mask bit, length form 7/16/64, bytes cut from the end); enc: (payload length, mask bit, opcode); first header byte (decode) / FIN, RSV bits (encode), key and every payload byte symbolic",
+        "obligation": "decode: FIN, RSV1-3, opcode, mask flag, length, key and unmasked payload exactly as sent, the whole frame consumed, reserved opcodes rejected, any truncation a read error; encode: RFC 6455 5.2 layout with the shortest length form and the payload masked with the key",
+        "stream_model": "NetStream value (read_exact delivers the next n bytes or fails at the end); read segmentation is covered by engine K on short frames",
+        "translator_validation": d["validation"],
+        "undischarged": d["undischarged"][:10],
+        "violations": [r["replay"] for r in d["violations"]][:3],
+    }
+    cov["functions_encoded"] = list(cov.get("functions_encoded", [])) + cov["long_payloads"]["functions_encoded"]
+    cov.setdefault("engines", {})["mirsym"] = "own MIR symbolic executor (/verif/mirsym) + z3 5.1.0"
+    assumptions = assumptions + ["long payloads: the NetStream model and the std models of mirsym/models_ws.py; MIR text = compiled function (validated per run on random concrete frames incl. one beyond 64 KiB against the native build)"]
+    write_evidence(ID, tier, cov, assumptions, time.time() - t0, nviol)
+    log("== %s: %d/%d obligations discharged (K harnesses + M long payloads), %d violation(s); %.0fs wall" % (ID, cov["discharged"], cov["obligations"], nviol, time.time() - t0))
+    return rc
+
+
+def replay(d, path):
+    from .. import mengine, kengine
+    from . import c10_big
+    mengine.setup(ID)
+    kengine.write_lists({})
+    return c10_big.replay(d, path)
